@@ -450,6 +450,12 @@ type Interp struct {
 	// Applied, when non-nil, receives every operator application in the order
 	// left-to-right evaluation performs them (C12).
 	Applied *[]Applied
+	// FastPair, when non-nil, models the one piece of extra work C03 permits
+	// under FastEvaluation: at an and/or whose two operands are both leaves and
+	// whose first operand already decides, the second leaf may be fetched as
+	// well. It is asked once per such point and answers whether this run takes
+	// the optional fetch.
+	FastPair func(second *Node) bool
 }
 
 // Applied is one operator application as the reference evaluation performs it.
@@ -510,6 +516,7 @@ func (it *Interp) L2R(n *Node) (interface{}, error) {
 		}
 		absorbing := n.IsOr()
 		vals := make([]interface{}, 0, len(n.Args))
+		fastPair := it.FastPair != nil && len(n.Args) == 2 && n.Args[0].IsLeaf() && n.Args[1].IsLeaf()
 		for _, a := range n.Args {
 			v, err := it.L2R(a)
 			if err != nil {
@@ -521,6 +528,11 @@ func (it *Interp) L2R(n *Node) (interface{}, error) {
 			}
 			vals = append(vals, v)
 			if b == absorbing {
+				if fastPair && a == n.Args[0] && n.Args[1].K == KVar && it.FastPair(n.Args[1]) {
+					if _, err := it.leaf(n.Args[1]); err != nil {
+						return nil, err
+					}
+				}
 				it.note(Applied{Name: n.Name, Args: vals, Res: absorbing, Optional: true})
 				return absorbing, nil
 			}
